@@ -6,7 +6,10 @@ cd /verif
 [ -z "$(git -C /repo status --short)" ] || { echo "/repo not clean"; exit 2; }
 while read id file commit; do
   [ -z "$id" ] && continue
-  if ! git -C /repo revert --no-commit $commit >/dev/null 2>&1; then
+  if [ "$commit" = 56472db ]; then
+    # the revert conflicts with later repairs; seeded change C03-7 re-introduces the same slip
+    git -C /repo apply /verif/seeded/C03-7/patch.diff
+  elif ! git -C /repo revert --no-commit $commit >/dev/null 2>&1; then
     git -C /repo revert --abort >/dev/null 2>&1; git -C /repo reset -q --hard HEAD
     echo "SKIP   $id $file (revert of $commit conflicts)"; continue
   fi
@@ -32,6 +35,7 @@ C07 d1-unknown-hash-name-in-first-contact-ping-header-panics.json e7034a9
 C09 ping-header-without-easing-star3.json df9379c
 C09 revert-47d55bd.json 47d55bd
 C09 revert-f41edae.json f41edae
+C09 d22-appendix-grown-into-the-link-margin.json 5172ac5
 C10 return-label-written-past-short-switch-block.json 6acf0e2
 C11 d11-clean-interleaved-prefixes-same-base.json ebc9784
 C11 d11b-clean-limit-looked-up-by-prefix-base.json 7c49f1d
